@@ -49,7 +49,9 @@ RULE = ("every shape m,l,n in 1..9 x 4 flag pairs with integer entries for matmu
         "panics are counted). Massive cancellation: Gram-Schmidt pairs w = v - ((v.u)/(u.u))u against u for every length 2..64 and "
         "some to 300, through every Vector.Vector form and as 1 x n / n x 2 matrix products; +-1 products cancelling exactly "
         "except one product 2^-44/2^-48 (exact-equality regime) or 2^-60..2^-100 in the last n % 8 slots; exactly orthogonal "
-        "integer vectors. non-trivial = distinct (op, flags/method, ownership, shapes, block size)")
+        "integer vectors. Structured operands: exactly lower / upper triangular, diagonal, rectangular diagonal, banded, symmetric, "
+        "zero row / column matrices of sizes 2, 9, 15..17, 24, 32, 33, 40 (quick: 2, 9, 16, 17, 33) as left, right or both operands, "
+        "all four flag pairs for matmul, matmul_blocked and every Dot method (mm, mv, vm), integer entries. non-trivial = distinct (op, flags/method, ownership, shapes, block size)")
 EXHAUSTIVE = {"quick": False, "thorough": True}
 NOT_PROVED = [
     "hand-modelled and tied at run time only (bit-exact correspondence over all four ownership forms), not regenerated from "
@@ -323,6 +325,12 @@ def corpus():
     out.append(L_d("dvv", "dot_t", 3, (13, 13), x, y))
     x, y = pm_orthogonal(r, 12)
     out.append(L_d("dvv", "t_dot", 0, (12, 12), x, y))
+    # structured operand (round-11 seed C05x: a lower-triangular fast path that scanned the raw A instead of op(A)):
+    # 16 x 16 exactly lower-triangular A with flags (1,0) times a dense 16 x 3 B, through matmul and Matrix.t_dot
+    A = struct_mat(r, "lower", 16, 16)
+    B = nzints(r, 16 * 3)
+    out.append(L_mm(1, 0, 16, 16, A, B))
+    out.append(L_d("dmm", "t_dot", 1, (16, 16, 16, 3), A, B))
     return out
 
 
@@ -478,6 +486,7 @@ def gen(rng, tier):
     alias_stratum(rng.fork("alias"), tier, lines, cover)
     zero_dim_stratum(rng.fork("zero"), tier, lines, cover)
     cancel_stratum(rng.fork("cancel"), tier, lines, cover)
+    struct_stratum(rng.fork("struct"), tier, lines, cover)
     return lines, cover
 
 
@@ -828,6 +837,81 @@ def cancel_stratum(rng, tier, lines, cover):
             if n <= 28:
                 lines.append(L_mm(0, 1, 2, 2, x + y, a + b))      # 2 x n times (2 x n)^T
                 cover["cancel_matrix"] += 1
+
+
+# ------------------------------------------------------------------------------------------------
+# STRUCTURED OPERANDS: exactly triangular / diagonal / banded / symmetric / zero-row operands (a structure-detecting fast
+# path is never entered by dense random data), all flag pairs (the structure of op(A) differs from that of the raw A)
+STRUCT_KINDS = ["lower", "upper", "diag", "rectdiag", "banded", "sym", "zero_row", "zero_col"]
+
+
+def nzints(rng, n):
+    return [float(rng.choice([-1, 1]) * rng.randint(1, 9)) for _ in range(n)]
+
+
+def struct_mat(rng, kind, r, c):
+    d = nzints(rng, r * c)
+    zr, zc = rng.randint(0, r - 1), rng.randint(0, c - 1)
+    for i in range(r):
+        for j in range(c):
+            keep = {"lower": j <= i, "upper": j >= i, "diag": i == j, "rectdiag": i == j, "banded": abs(i - j) <= 1,
+                    "sym": True, "zero_row": i != zr, "zero_col": j != zc}[kind]
+            if not keep:
+                d[i * c + j] = 0.0
+            elif kind == "rectdiag":
+                d[i * c + j] = 1.0
+            elif kind == "sym" and j < i and i < c and j < r:
+                d[i * c + j] = d[j * c + i]
+    return d
+
+
+def struct_stratum(rng, tier, lines, cover):
+    quick = tier != "thorough"
+    for k_ in ("struct_left", "struct_right", "struct_both", "struct_vec"):
+        cover[k_] = 0
+    sizes = [2, 9, 16, 17, 33] if quick else [2, 9, 15, 16, 17, 24, 32, 33, 40]
+    q = 0
+    for n in sizes:
+        for kind in STRUCT_KINDS:
+            # stored shape of the structured operand: square, except the rectangular "diagonal" [I 0] / [I;0]
+            shapes = [(n, n)] if kind != "rectdiag" else [(n, n + 3), (n + 3, n)]
+            for (sr, sc) in shapes:
+                for fi, (ta, tb) in enumerate(FLAGS4):
+                    q += 1
+                    p = 3 if n > 2 else 2
+                    meth = METHS[fi]      # METHS order = (F,F), (T,F), (F,T), (T,T)
+                    # structured LEFT operand S (stored sr x sc), dense right operand
+                    S = struct_mat(rng, kind, sr, sc)
+                    l = sr if ta else sc
+                    rb, cb = (p, l) if tb else (l, p)
+                    B = nzints(rng, rb * cb)
+                    lines.append(L_mm(ta, tb, sr, rb, S, B))
+                    lines.append(L_mb(ta, tb, sr, rb, rng.choice([1, 4, 8, 16, n, n + 1]), S, B))
+                    lines.append(L_d("dmm", meth, q % 4, (sr, sc, rb, cb), S, B))
+                    cover["struct_left"] += 3
+                    # structured RIGHT operand, dense left
+                    l = sc if tb else sr
+                    ra, ca = (l, p) if ta else (p, l)
+                    A = nzints(rng, ra * ca)
+                    S = struct_mat(rng, kind, sr, sc)
+                    lines.append(L_mm(ta, tb, ra, sr, A, S))
+                    lines.append(L_mb(ta, tb, ra, sr, rng.choice([1, 4, 8, 16, n, n + 1]), A, S))
+                    lines.append(L_d("dmm", meth, (q + 1) % 4, (ra, ca, sr, sc), A, S))
+                    cover["struct_right"] += 3
+                    # Matrix . Vector and Vector . Matrix with the structured matrix
+                    S = struct_mat(rng, kind, sr, sc)
+                    nv = sr if ta else sc
+                    lines.append(L_d("dmv", meth, (q + 2) % 4, (sr, sc, nv), S, nzints(rng, nv)))
+                    nv = sc if tb else sr
+                    lines.append(L_d("dvm", meth, (q + 3) % 4, (nv, sr, sc), nzints(rng, nv), S))
+                    cover["struct_vec"] += 2
+                    # both operands structured (square kinds), and xtx of the structured matrix
+                    if sr == sc and (fi == (n + len(kind)) % 4 or not quick):
+                        S2 = struct_mat(rng, STRUCT_KINDS[(q + fi) % len(STRUCT_KINDS)] if kind != "rectdiag" else "lower", n, n)
+                        lines.append(L_mm(ta, tb, n, n, S, S2))
+                        lines.append(L_d("dmm", meth, q % 4, (n, n, n, n), S2, S))
+                        cover["struct_both"] += 2
+                lines.append(L_xtx(sr, struct_mat(rng, kind, sr, sc)))
 
 
 def zero_dim_stratum(rng, tier, lines, cover):
